@@ -85,6 +85,8 @@ class Tr:
                 return self.expr(n.args[0])
             if f in ("min", "max") and len(n.args) == 2:
                 return f"({f} {self.expr(n.args[0])} {self.expr(n.args[1])})"
+            if f == "float" and len(n.args) == 1 and isinstance(n.args[0], ast.Constant) and n.args[0].value == "inf":
+                return "none"  # +infinity of an optional number (`kinds`: "inf")
             if f == "float" and len(n.args) == 1:
                 return self.expr(n.args[0])
             if f == "round" and len(n.args) == 2 and not n.keywords and "round" in self.env:
@@ -126,8 +128,20 @@ class Tr:
             if isinstance(n.ops[0], ast.Is) and isinstance(right, ast.Constant) and right.value is None \
                     and self.kinds.get(ast.unparse(left)) == "none":
                 return f"({self.expr(left)}).isNone"
+            if isinstance(n.ops[0], ast.Is) and isinstance(right, ast.Constant) and right.value is None \
+                    and self.kinds.get(ast.unparse(left)) == "none-inf":
+                return f"({self.expr(left)}).isNone"
             kind = self.kinds.get(ast.unparse(right))
-            if kind is not None:
+            lkind = self.kinds.get(ast.unparse(left))
+            if kind == "none-inf" and lkind == "inf":
+                # a possibly infinite number against a running extremum that is None before the first element
+                fn = {ast.Lt: "ltOptE", ast.Eq: "eqOptE"}.get(type(n.ops[0]))
+                if fn is None:
+                    raise TranslationError("comparison with an optional extremum")
+                return f"({fn} {self.expr(left)} {self.expr(right)})"
+            if lkind == "none-inf" and kind == "inf" and isinstance(n.ops[0], ast.Eq):
+                return f"(eqOptE {self.expr(right)} {self.expr(left)})"  # `==` is symmetric
+            if kind in ("none", "inf") and lkind is None:
                 fn = {"none": {ast.Lt: "ltOpt", ast.Gt: "gtOpt", ast.Eq: "eqOpt"},
                       "inf": {ast.Lt: "ltInf", ast.Gt: "gtInf", ast.Eq: "eqInf"}}[kind].get(type(n.ops[0]))
                 if fn is None:
@@ -542,7 +556,10 @@ class _LoopTr:
             return self.seq(rest, cur, local)
         if isinstance(st, (ast.Assign, ast.AnnAssign)) and re.fullmatch(r"[A-Za-z_][A-Za-z_0-9]*", target):
             local = dict(local)
-            local[target] = t.expr(value)
+            v = t.expr(value)
+            if key in self.wraps and v != "none":
+                v = self.wraps[key].format(v)
+            local[target] = v
             return self.seq(rest, cur, local)
         raise TranslationError(f"assignment to {target}, which is neither a state variable of the loop nor a local name")
 
@@ -582,7 +599,19 @@ def gtInf (a : Rat) : Option Rat → Bool
   | some b => decide (a > b)
 def eqInf (a : Rat) : Option Rat → Bool
   | none => false
-  | some b => decide (a = b)"""
+  | some b => decide (a = b)
+/-- a possibly infinite number (`none` = `float("inf")`) against another one, and against a running extremum that is `None` before the
+    first element -/
+def ltE : Option Rat → Option Rat → Bool
+  | some a, some b => decide (a < b)
+  | some _, none => true
+  | none, _ => false
+def ltOptE (a : Option Rat) : Option (Option Rat) → Bool
+  | none => false
+  | some b => ltE a b
+def eqOptE (a : Option Rat) : Option (Option Rat) → Bool
+  | none => false
+  | some b => a == b"""
 
 
 def raw(text):
@@ -1032,6 +1061,14 @@ LEAVES = [
     ("C03", "passInitialRemaining", "(budget initCost : Rat)", "Rat",
      assign(GRE, "greedy_utilitarian_scheme_additive", "remaining_budget", {"instance.budget_limit": "budget", "total_cost(budget_allocation)": "initCost"}, k=0)),
     # ---- C05: Phragmén
+    ("C05", "optPrelude", None, None, raw(OPT_PRELUDE)),
+    # the arg-min loop of a Phragmen round as a whole (statement-level leaf): the new maximum load of every project (`inf` without supporters),
+    # the running minimum and the projects tied at it; `x` = (project, approval score, summed loads of its supporters, cost)
+    ("C05", "argminLoop", None, None,
+     loop(PHR, "sequential_phragmen.aux", "projects", "argminLoop", "",
+          [("min_new_maxload", "best", "Option (Option Rat)"), ("arg_min_new_maxload", "arg", "List Nat")], ("project", "Nat × Rat × Rat × Rat"),
+          {"approval_scores[project]": "x.2.1", "sum((voters[i].total_load() for i in supporters[project]))": "x.2.2.1", "project.cost": "x.2.2.2", "project": "x.1"},
+          wraps={"min_new_maxload": "(some {})", "new_maxload": "(some {})"}, kinds={"min_new_maxload": "none-inf", "new_maxload": "inf"})),
     ("C05", "totalLoad", "(m load : Rat)", "Rat", whole(PHR, "PhragmenVoter.total_load", {"self.multiplicity": "m", "self.load": "load"})),
     ("C05", "unsupported", "(score : Rat)", "Bool", test(PHR, "sequential_phragmen.aux", "approval_scores[project] == 0", {"approval_scores[project]": "score"})),
     ("C05", "newMaxLoad", "(loadSum cost score : Rat)", "Rat",
